@@ -184,6 +184,13 @@ func run(c *fw.Ctx) {
 		for i := 0; i < per/10; i++ {
 			try(semverops.Mutate(c.Rng, semverops.GenVersion(c.Rng, sys)))
 		}
+		// families of near-equal spellings (case, leading zeros, separators, neighbouring
+		// letters/digits, added/dropped components) of generated versions
+		for i := 0; i < per/6; i++ {
+			for _, v := range semverops.Variants(c.Rng, semverops.GenVersion(c.Rng, sys), 4) {
+				try(v)
+			}
+		}
 		// same canonical string => compare equal
 		n := 0
 		for _, group := range byCanon {
@@ -208,7 +215,7 @@ func run(c *fw.Ctx) {
 func main() {
 	fw.Main(&fw.Prop{
 		ID:   "C10",
-		Rule: "per system: small-scope exhaustive token strings + AST-generated versions with alternative spellings + mutations; for each accepted version both Canon(true) and Canon(false) are re-parsed, compared with the original and canonicalised again; versions grouped by canonical string must compare equal. Distinct non-trivial = distinct (system, canonical string) of accepted versions.",
+		Rule: "per system (incl. families of near-equal spellings of generated versions): small-scope exhaustive token strings + AST-generated versions with alternative spellings + mutations; for each accepted version both Canon(true) and Canon(false) are re-parsed, compared with the original and canonicalised again; versions grouped by canonical string must compare equal. Distinct non-trivial = distinct (system, canonical string) of accepted versions.",
 		Exec: exec, Run: run, Recheck: recheck, Classify: classify,
 		Gens: semvergen.Generators(),
 	})
